@@ -7,15 +7,24 @@ import (
 	"fmt"
 	"go/ast"
 	"go/constant"
+	"go/parser"
 	"go/token"
+	"os"
+	"path/filepath"
 	"sort"
 	"strconv"
 	"strings"
+	"context"
 	"sync"
+	"sync/atomic"
 	"time"
 
+	"github.com/gotd/td/bin"
+	"github.com/gotd/td/crypto"
+	"github.com/gotd/td/mt"
 	"github.com/gotd/td/mtproto"
 	"github.com/gotd/td/proto"
+	"github.com/gotd/td/transport"
 
 	"verif/harness/hc"
 )
@@ -61,18 +70,41 @@ func localConst(f *hc.Facts, lean, dir, fn, name string) {
 	}
 }
 
-// lockedWhole reports whether the function body starts with `<mu>.Lock()` followed by
-// `defer <mu>.Unlock()`, i.e. the whole body is one critical section of that mutex.
-func lockedWhole(f *hc.Facts, fd *ast.FuncDecl, mu string) bool {
-	if fd == nil || fd.Body == nil || len(fd.Body.List) < 2 {
-		return false
+// funcNames lists the functions ("Name") and methods ("Recv.Name") of a package directory of the
+// repository (test files and verification hook files excluded).
+func funcNames(f *hc.Facts, dir string) []string {
+	var out []string
+	ents, _ := os.ReadDir(filepath.Join(f.Repo, dir))
+	fset := token.NewFileSet()
+	for _, e := range ents {
+		n := e.Name()
+		if e.IsDir() || !strings.HasSuffix(n, ".go") || strings.HasSuffix(n, "_test.go") || strings.HasPrefix(n, "verif_") {
+			continue
+		}
+		af, err := parser.ParseFile(fset, filepath.Join(f.Repo, dir, n), nil, 0)
+		if err != nil {
+			continue
+		}
+		for _, d := range af.Decls {
+			fd, ok := d.(*ast.FuncDecl)
+			if !ok {
+				continue
+			}
+			name := fd.Name.Name
+			if fd.Recv != nil && len(fd.Recv.List) > 0 {
+				t := fd.Recv.List[0].Type
+				if st, ok := t.(*ast.StarExpr); ok {
+					t = st.X
+				}
+				if id, ok := t.(*ast.Ident); ok {
+					name = id.Name + "." + name
+				}
+			}
+			out = append(out, name)
+		}
 	}
-	es, ok := fd.Body.List[0].(*ast.ExprStmt)
-	if !ok || f.Src(es.X) != mu+".Lock()" {
-		return false
-	}
-	ds, ok := fd.Body.List[1].(*ast.DeferStmt)
-	return ok && f.Src(ds.Call) == mu+".Unlock()"
+	sort.Strings(out)
+	return out
 }
 
 func facts(f *hc.Facts) {
@@ -86,23 +118,12 @@ func facts(f *hc.Facts) {
 	f.Const("typeFromServer", "proto", "MessageFromServer")
 	localConst(f, "minResolutionNanos", "proto", "MessageIDGen.New", "minResolutionNanos")
 	localConst(f, "nanoPerSec", "proto", "newMessageID", "nano")
-	// the whole of proto.newMessageID, translated from the source (Props: newMessageID_translated_eq_model)
-	f.TranslateFuncs("proto", "newMessageIDT", "newMessageID")
-
-	// the shift in `(intPart << 32) | fracPart` and the masking statement
 	if fd := f.FuncDecl("proto", "newMessageID"); fd != nil {
-		shift, mask := "", ""
+		shift := ""
 		ast.Inspect(fd.Body, func(n ast.Node) bool {
-			switch x := n.(type) {
-			case *ast.BinaryExpr:
-				if x.Op == token.SHL {
-					if lit, ok := x.Y.(*ast.BasicLit); ok {
-						shift = lit.Value
-					}
-				}
-			case *ast.AssignStmt:
-				if x.Tok == token.AND_ASSIGN {
-					mask = f.Src(x)
+			if x, ok := n.(*ast.BinaryExpr); ok && x.Op == token.SHL {
+				if lit, ok := x.Y.(*ast.BasicLit); ok {
+					shift = lit.Value
 				}
 			}
 			return true
@@ -112,69 +133,99 @@ func facts(f *hc.Facts) {
 		} else {
 			f.Missing("idShift", "no `<< literal` in proto.newMessageID")
 		}
-		f.Str("maskStmt", mask, "the &= statement of proto.newMessageID")
 	} else {
 		f.Missing("idShift", "proto.newMessageID not found")
 	}
 
-	// MessageIDGen.New: the advance condition and both branches, and its lock scope
-	gen := f.FuncDecl("proto", "MessageIDGen.New")
-	cond, thenS, elseS := "", "", ""
-	if gen != nil {
-		ast.Inspect(gen.Body, func(n ast.Node) bool {
-			if is, ok := n.(*ast.IfStmt); ok && cond == "" {
-				cond = f.Src(is.Cond)
-				if len(is.Body.List) == 1 {
-					thenS = f.Src(is.Body.List[0])
-				}
-				if eb, ok := is.Else.(*ast.BlockStmt); ok && len(eb.List) == 1 {
-					elseS = f.Src(eb.List[0])
+	// The code itself, regenerated: newMessageID and NewMessageIDNano as they are, and the bodies of
+	// MessageIDGen.New and Conn.nextMsgSeq as functions of their state (g.nano /
+	// c.sentContentMessages) and inputs (the clock reading / the id from c.newMessageID()).
+	// The executable model calls these definitions; Props proves them equal to the
+	// hand-written model the theorems are about.
+	lockNew := []string{"g.mux.Lock()", "defer g.mux.Unlock()"}
+	f.TranslateSlices("proto", []string{"newMessageIDT", "newMessageID", "newMessageIDNanoT", "NewMessageIDNano"},
+		hc.SliceSpec{Lean: "genNewT", Go: "MessageIDGen.New", Fields: [][2]string{{"g.nano", "gNano"}},
+			Inputs: [][3]string{{"g.now().UnixNano()", "clock", "int64"}}, Drop: lockNew, KeepResults: true})
+	lockSeq := []string{"c.reqMux.Lock()", "defer c.reqMux.Unlock()", "c.reqMux.Unlock()"}
+	f.TranslateSlices("mtproto", nil,
+		hc.SliceSpec{Lean: "nextMsgSeqT", Go: "Conn.nextMsgSeq", Fields: [][2]string{{"c.sentContentMessages", "cSent"}},
+			Inputs: [][3]string{{"c.newMessageID()", "newID", "int64"}}, Drop: lockSeq, KeepResults: true})
+
+	// Lock scope (what the slices drop): every use of the state and of the inputs lies inside one
+	// critical section that spans to the end of the function.
+	f.Bool("genNewLocked", f.LockCovers(f.FuncDecl("proto", "MessageIDGen.New"), "g.mux", "g.nano", "g.now()", "NewMessageIDNano"),
+		"MessageIDGen.New: all uses of g.nano / g.now() are inside the g.mux critical section")
+	f.Bool("nextMsgSeqLocked", f.LockCovers(f.FuncDecl("mtproto", "Conn.nextMsgSeq"), "c.reqMux", "c.sentContentMessages", "c.newMessageID()"),
+		"Conn.nextMsgSeq: all uses of c.sentContentMessages / c.newMessageID() are inside the c.reqMux critical section")
+
+	// Conn.newMessageID asks the generator for this message type
+	typ := ""
+	if fd := f.FuncDecl("mtproto", "Conn.newMessageID"); fd != nil {
+		ast.Inspect(fd.Body, func(n ast.Node) bool {
+			if ce, ok := n.(*ast.CallExpr); ok && f.Src(ce.Fun) == "c.messageID.New" && len(ce.Args) == 1 {
+				if se, ok := ce.Args[0].(*ast.SelectorExpr); ok && f.Src(se.X) == "proto" {
+					typ = se.Sel.Name
 				}
 			}
 			return true
 		})
 	}
-	f.Str("genAdvanceCond", cond, "condition of the if in MessageIDGen.New")
-	f.Str("genAdvanceThen", thenS, "then-branch")
-	f.Str("genAdvanceElse", elseS, "else-branch")
-	f.Bool("genNewLocked", lockedWhole(f, gen, "g.mux"), "MessageIDGen.New is one critical section of g.mux")
+	if v, ok := f.ConstInt("proto", typ); ok && typ != "" {
+		f.Raw("def connNewType : Nat := " + v + " -- c.messageID.New(proto." + typ + ") in Conn.newMessageID")
+	} else {
+		f.Missing("connNewType", "c.messageID.New(proto.<type>) not found in Conn.newMessageID")
+	}
 
-	// Conn.nextMsgSeq: one critical section of reqMux containing the id generation and the counter
-	nms := f.FuncDecl("mtproto", "Conn.nextMsgSeq")
-	f.Bool("nextMsgSeqLocked", lockedWhole(f, nms, "c.reqMux"), "Conn.nextMsgSeq is one critical section of c.reqMux")
-	factor, callsGen := "", false
-	var rest []string
-	if nms != nil && nms.Body != nil {
-		for i, st := range nms.Body.List {
-			if i >= 2 {
-				rest = append(rest, strings.Join(strings.Fields(f.Src(st)), " "))
-			}
+	// Where (id, seq_no) pairs come from and go to: the content flag at every nextMsgSeq call site,
+	// write handing its arguments to newEncryptedMessage, newEncryptedMessage putting them into
+	// every EncryptedMessageData it builds.
+	var sites []string
+	for _, fn := range funcNames(f, "mtproto") {
+		if strings.HasSuffix(fn, ".nextMsgSeq") {
+			continue
 		}
-		ast.Inspect(nms.Body, func(n ast.Node) bool {
-			switch x := n.(type) {
-			case *ast.BinaryExpr:
-				if x.Op == token.MUL && f.Src(x.X) == "c.sentContentMessages" {
-					if lit, ok := x.Y.(*ast.BasicLit); ok {
-						factor = lit.Value
+		fd := f.FuncDecl("mtproto", fn)
+		if fd == nil || fd.Body == nil {
+			continue
+		}
+		ast.Inspect(fd.Body, func(n ast.Node) bool {
+			if ce, ok := n.(*ast.CallExpr); ok && f.Src(ce.Fun) == "c.nextMsgSeq" && len(ce.Args) == 1 {
+				sites = append(sites, fmt.Sprintf("(%q, %q)", strings.TrimPrefix(fn, "Conn."), f.Src(ce.Args[0])))
+			}
+			return true
+		})
+	}
+	f.Raw("def nextMsgSeqSites : List (String × String) := [" + strings.Join(sites, ", ") + "] -- (caller, argument) of every c.nextMsgSeq(…) call in package mtproto")
+	passes := false
+	if fd := f.FuncDecl("mtproto", "Conn.write"); fd != nil {
+		ast.Inspect(fd.Body, func(n ast.Node) bool {
+			if ce, ok := n.(*ast.CallExpr); ok && f.Src(ce.Fun) == "c.newEncryptedMessage" && len(ce.Args) == 4 {
+				passes = f.Src(ce.Args[0]) == "msgID" && f.Src(ce.Args[1]) == "seqNo"
+			}
+			return true
+		})
+	}
+	f.Bool("writePassesIdSeq", passes, "Conn.write calls c.newEncryptedMessage(msgID, seqNo, …) with its own parameters")
+	lits, withID, withSeq := 0, 0, 0
+	if fd := f.FuncDecl("mtproto", "Conn.newEncryptedMessage"); fd != nil {
+		ast.Inspect(fd.Body, func(n ast.Node) bool {
+			if cl, ok := n.(*ast.CompositeLit); ok && f.Src(cl.Type) == "crypto.EncryptedMessageData" {
+				lits++
+				for _, e := range cl.Elts {
+					switch strings.Join(strings.Fields(f.Src(e)), " ") {
+					case "MessageID: id":
+						withID++
+					case "SeqNo: seq":
+						withSeq++
 					}
 				}
-			case *ast.CallExpr:
-				if f.Src(x) == "c.newMessageID()" {
-					callsGen = true
-				}
 			}
 			return true
 		})
 	}
-	if _, err := strconv.Atoi(factor); err == nil {
-		f.Raw("def seqFactor : Nat := " + factor + " -- c.sentContentMessages * <factor> in Conn.nextMsgSeq")
-	} else {
-		f.Missing("seqFactor", "no `c.sentContentMessages * literal` in Conn.nextMsgSeq")
-	}
-	f.Bool("nextMsgSeqCallsGen", callsGen, "Conn.nextMsgSeq calls c.newMessageID() inside the critical section")
-	f.Str("nextMsgSeqBody", strings.Join(rest, " ; "), "statements of Conn.nextMsgSeq after the lock")
-	// Conn.newMessageID asks for a client-typed id
-	f.Str("connNewMessageID", strings.Join(strings.Fields(f.FuncSrc("mtproto", "Conn.newMessageID")), " "), "body of Conn.newMessageID")
+	f.Nat("encryptedDataLiterals", lits, "crypto.EncryptedMessageData literals in Conn.newEncryptedMessage")
+	f.Nat("encryptedDataLiteralsWithId", withID, "… with `MessageID: id`")
+	f.Nat("encryptedDataLiteralsWithSeq", withSeq, "… with `SeqNo: seq`")
 }
 
 // ---------------------------------------------------------------------------------- generators
@@ -396,6 +447,285 @@ func b01(b bool) string {
 	return "0"
 }
 
+// ---------------------------------------------------------------------------------- the wire
+
+// wireFrame is what a written frame carries, read back by decrypting it as the server would.
+type wireFrame struct {
+	msgID   int64
+	seqNo   int32
+	typeID  uint32
+	session int64
+	pingID  int64
+	gzipped bool
+}
+
+// wireTransport is an in-memory transport.Conn (and HTTP long-poll capable, so that http_wait
+// frames are produced too).
+type wireTransport struct {
+	key  crypto.AuthKey
+	dec  crypto.Cipher
+	out  chan wireFrame
+	in   chan []byte
+	mu   sync.Mutex
+	wait func(ctx context.Context) (*bin.Buffer, error)
+	errs []string
+}
+
+func (t *wireTransport) decode(b *bin.Buffer) (wireFrame, bool) {
+	cp := &bin.Buffer{Buf: append([]byte{}, b.Buf...)}
+	d, err := t.dec.DecryptFromBuffer(t.key, cp)
+	if err != nil {
+		t.mu.Lock()
+		t.errs = append(t.errs, err.Error())
+		t.mu.Unlock()
+		return wireFrame{}, false
+	}
+	p := &bin.Buffer{Buf: d.Data()}
+	id, _ := p.PeekID()
+	gz := false
+	if id == proto.GZIPTypeID { // the compressing branch of newEncryptedMessage
+		var g proto.GZIP
+		if g.Decode(p) == nil {
+			p = &bin.Buffer{Buf: g.Data}
+			id, _ = p.PeekID()
+			gz = true
+		}
+	}
+	w := wireFrame{msgID: d.MessageID, seqNo: d.SeqNo, typeID: id, session: d.SessionID, gzipped: gz}
+	if id == mt.PingDelayDisconnectRequestTypeID {
+		var r mt.PingDelayDisconnectRequest
+		if r.Decode(p) == nil {
+			w.pingID = r.PingID
+		}
+	}
+	return w, true
+}
+
+func (t *wireTransport) Send(ctx context.Context, b *bin.Buffer) error {
+	if w, ok := t.decode(b); ok {
+		select {
+		case t.out <- w:
+		case <-ctx.Done():
+		}
+	}
+	return nil
+}
+
+func (t *wireTransport) Recv(ctx context.Context, b *bin.Buffer) error {
+	select {
+	case f := <-t.in:
+		b.ResetTo(f)
+		return nil
+	case <-ctx.Done():
+		return ctx.Err()
+	}
+}
+func (t *wireTransport) Close() error                          { return nil }
+func (t *wireTransport) HTTPWaitParams() (int, int, int)       { return 0, 0, 25000 }
+func (t *wireTransport) StartHTTPWait(f func(ctx context.Context) (*bin.Buffer, error)) {
+	t.mu.Lock()
+	t.wait = f
+	t.mu.Unlock()
+}
+
+var _ transport.Conn = (*wireTransport)(nil)
+
+type anyOut struct{}
+
+func (anyOut) Decode(b *bin.Buffer) error { return nil }
+
+func encodeTL(e bin.Encoder) []byte {
+	var b bin.Buffer
+	if err := e.Encode(&b); err != nil {
+		panic(err)
+	}
+	return b.Buf
+}
+
+type rawPayload []byte
+
+func (p rawPayload) Encode(b *bin.Buffer) error { b.Put(p); return nil }
+
+// watchdog is generous and grows with the machine's load: nothing below is a timing assertion.
+func watchdog() time.Duration {
+	d := 90 * time.Second
+	if b, err := os.ReadFile("/proc/loadavg"); err == nil {
+		if f := strings.Fields(string(b)); len(f) > 0 {
+			if l, err := strconv.ParseFloat(f[0], 64); err == nil && l > 32 {
+				d += time.Duration(l/32) * 60 * time.Second
+			}
+		}
+	}
+	return d
+}
+
+// runWire starts a whole connection (public mtproto.New + Run) over the in-memory transport and
+// lets every kind of outgoing message happen: keep-alive pings, acknowledgements of server
+// messages, get_future_salts, http_wait and concurrent content requests.  Returns the written
+// messages (one per msg_id) in msg_id order.
+func runWire(seed uint64, workers, per, compress int) (frames []wireFrame, kinds map[string]int, herr error) {
+	r := hc.NewRNG(seed)
+	var key crypto.Key
+	r.Read(key[:])
+	ak := key.WithID()
+	tr := &wireTransport{key: ak, dec: crypto.NewServerCipher(r.Fork()), out: make(chan wireFrame, 4096), in: make(chan []byte, 4096)}
+	srv := crypto.NewServerCipher(r.Fork())
+	srvIDs := proto.NewMessageIDGen(time.Now)
+	conn := mtproto.New(func(ctx context.Context) (transport.Conn, error) { return tr, nil }, mtproto.Options{
+		Random: r.Fork(), Key: ak, Cipher: crypto.NewClientCipher(r.Fork()), CompressThreshold: compress,
+		PingInterval: 15 * time.Millisecond, PingTimeout: 10 * time.Minute,
+		AckInterval: 10 * time.Millisecond, AckBatchSize: 2, SaltFetchInterval: 20 * time.Millisecond,
+		RetryInterval: 10 * time.Minute,
+	})
+	ctx, cancel := context.WithCancel(context.Background())
+	defer cancel()
+	var session atomic.Int64
+	var srvSeq atomic.Int32
+	serverSend := func(typ proto.MessageType, contentRelated bool, payload []byte) {
+		seq := srvSeq.Load() * 2
+		if contentRelated {
+			seq++
+			srvSeq.Add(1)
+		}
+		var b bin.Buffer
+		if err := srv.Encrypt(ak, crypto.EncryptedMessageData{
+			SessionID: session.Load(), Salt: 1, MessageID: srvIDs.New(typ), SeqNo: seq, Message: rawPayload(payload),
+		}, &b); err != nil {
+			return
+		}
+		select {
+		case tr.in <- b.Buf:
+		default:
+		}
+	}
+	invokesDone := make(chan struct{})
+	runDone := make(chan error, 1)
+	go func() {
+		runDone <- conn.Run(ctx, func(ctx context.Context) error {
+			var wg sync.WaitGroup
+			for w := 0; w < workers; w++ {
+				wg.Add(1)
+				go func(w int) {
+					defer wg.Done()
+					for k := 0; k < per; k++ {
+						// a request long enough to take the compressing branch when compression is on
+						req := append(encodeTL(&mt.RPCDropAnswerRequest{ReqMsgID: int64(w*1000 + k)}), make([]byte, 200)...)
+						_ = conn.Invoke(ctx, rawPayload(req), anyOut{})
+					}
+				}(w)
+			}
+			wg.Wait()
+			close(invokesDone)
+			<-ctx.Done()
+			return ctx.Err()
+		})
+	}()
+	seen := map[int64]wireFrame{}
+	kinds = map[string]int{}
+	record := func(w wireFrame) {
+		if old, dup := seen[w.msgID]; dup {
+			if old.seqNo != w.seqNo || old.typeID != w.typeID {
+				kinds["DIFFERENT-MESSAGES-SAME-ID"]++
+			}
+			kinds["retransmission"]++
+			return
+		}
+		seen[w.msgID] = w
+		if w.gzipped {
+			kinds["(gzip-packed)"]++
+		}
+		switch w.typeID {
+		case mt.PingDelayDisconnectRequestTypeID:
+			kinds["ping_delay_disconnect"]++
+		case mt.MsgsAckTypeID:
+			kinds["msgs_ack"]++
+		case mt.GetFutureSaltsRequestTypeID:
+			kinds["get_future_salts"]++
+		case mt.HTTPWaitRequestTypeID:
+			kinds["http_wait"]++
+		case mt.RPCDropAnswerRequestTypeID:
+			kinds["content(rpc)"]++
+		default:
+			kinds[fmt.Sprintf("other-%08x", w.typeID)]++
+		}
+	}
+	sessionTold := false
+	react := func(w wireFrame) {
+		if session.Load() == 0 {
+			session.Store(w.session)
+		}
+		if !sessionTold {
+			sessionTold = true
+			serverSend(proto.MessageFromServer, true, encodeTL(&mt.NewSessionCreated{FirstMsgID: w.msgID, UniqueID: 7, ServerSalt: 1}))
+		}
+		switch w.typeID {
+		case mt.PingDelayDisconnectRequestTypeID:
+			serverSend(proto.MessageServerResponse, false, encodeTL(&mt.Pong{MsgID: w.msgID, PingID: w.pingID}))
+		case mt.RPCDropAnswerRequestTypeID:
+			serverSend(proto.MessageServerResponse, true, encodeTL(&proto.Result{RequestMessageID: w.msgID, Result: encodeTL(&mt.MsgsAck{MsgIDs: []int64{1}})}))
+		case mt.GetFutureSaltsRequestTypeID:
+			serverSend(proto.MessageServerResponse, true, encodeTL(&mt.FutureSalts{ReqMsgID: w.msgID, Now: int(time.Now().Unix())}))
+		}
+	}
+	deadline := time.After(watchdog())
+	tick := time.NewTicker(5 * time.Millisecond)
+	defer tick.Stop()
+	finishing := (<-chan time.Time)(nil)
+	done := invokesDone
+loop:
+	for {
+		select {
+		case w := <-tr.out:
+			record(w)
+			react(w)
+		case <-tick.C: // an http_wait frame, as the HTTP transport's long-poll loop would ask for
+			tr.mu.Lock()
+			f := tr.wait
+			tr.mu.Unlock()
+			if f != nil {
+				if b, err := f(ctx); err == nil {
+					if w, ok := tr.decode(b); ok {
+						record(w)
+					}
+				}
+			}
+		case <-done:
+			done = nil
+			finishing = time.After(80 * time.Millisecond) // let trailing acks / pings be written
+		case <-finishing:
+			break loop
+		case err := <-runDone:
+			return nil, kinds, fmt.Errorf("Run ended early: %v", err)
+		case <-deadline:
+			return nil, kinds, fmt.Errorf("wire scenario did not finish within the watchdog (workers=%d per=%d, %d frames so far)", workers, per, len(seen))
+		}
+	}
+	cancel()
+	select {
+	case <-runDone:
+	case <-time.After(watchdog()):
+		return nil, kinds, fmt.Errorf("Run did not return after cancellation")
+	}
+	for drained := false; !drained; {
+		select {
+		case w := <-tr.out:
+			record(w)
+		default:
+			drained = true
+		}
+	}
+	tr.mu.Lock()
+	if len(tr.errs) > 0 {
+		herr = fmt.Errorf("written frame does not decrypt: %s", tr.errs[0])
+	}
+	tr.mu.Unlock()
+	for _, w := range seen {
+		frames = append(frames, w)
+	}
+	sort.Slice(frames, func(i, j int) bool { return frames[i].msgID < frames[j].msgID })
+	return frames, kinds, herr
+}
+
 // ---------------------------------------------------------------------------------- run
 
 func run(c *hc.Ctx) error {
@@ -589,6 +919,112 @@ func run(c *hc.Ctx) error {
 		add(line, ib.String())
 	}
 
+	// ---- 5. hammer: 8 callers in tight loops, half of them service-only (the window between id
+	// generation and sequence-number assignment is a few instructions wide)
+	nHammer := c.N(12, 200)
+	for i := 0; i < nHammer; i++ {
+		workers, per := 8, r.Range(1500, 3000)
+		cs, _ := genScript(r, workers*per)
+		now, _ := scriptClock(cs)
+		conn := mtproto.VerifC08NewConn(proto.NewMessageIDGen(now))
+		res := make([][]obs, workers)
+		var wg sync.WaitGroup
+		start := make(chan struct{})
+		for w := 0; w < workers; w++ {
+			wg.Add(1)
+			go func(w int) {
+				defer wg.Done()
+				content := w%2 == 0
+				out := make([]obs, 0, per)
+				<-start
+				for k := 0; k < per; k++ {
+					id, seq := mtproto.VerifC08NextMsgSeq(conn, content)
+					out = append(out, obs{id, seq, content})
+				}
+				res[w] = out
+			}(w)
+		}
+		close(start)
+		wg.Wait()
+		var all []obs
+		for _, l := range res {
+			all = append(all, l...)
+		}
+		sort.Slice(all, func(a, b int) bool { return all[a].id < all[b].id })
+		var lb, ib strings.Builder
+		lb.WriteString("conn")
+		for k, o := range all {
+			fmt.Fprintf(&lb, " %d/%s", cs[k].clock, b01(o.content))
+			if k > 0 {
+				ib.WriteByte(' ')
+			}
+			fmt.Fprintf(&ib, "%d/%d", o.id, o.seq)
+		}
+		line := lb.String()
+		checkSeqRule(c, line, all)
+		c.Eval(fmt.Sprintf("hammer #%d workers=%d per=%d", i, workers, per), true)
+		c.Count("conn.hammer")
+		add(line, ib.String())
+	}
+
+	// ---- 6. the wire: whole connections, every kind of outgoing message
+	nWire := c.N(6, 40)
+	type wireRes struct {
+		frames []wireFrame
+		kinds  map[string]int
+		err    error
+	}
+	wres := make([]wireRes, nWire)
+	wcfg := make([][3]int, nWire)
+	wseed := make([]uint64, nWire)
+	var wwg sync.WaitGroup
+	sem := make(chan struct{}, 6)
+	for i := 0; i < nWire; i++ {
+		wcfg[i] = [3]int{r.Range(1, 4), r.Range(2, 6), hc.Pick(r, -1, 64)} // compression off / on (all three branches of newEncryptedMessage)
+		wseed[i] = r.U64()
+		wwg.Add(1)
+		go func(i int) {
+			defer wwg.Done()
+			sem <- struct{}{}
+			defer func() { <-sem }()
+			f, k, err := runWire(wseed[i], wcfg[i][0], wcfg[i][1], wcfg[i][2])
+			wres[i] = wireRes{f, k, err}
+		}(i)
+	}
+	wwg.Wait()
+	for i, wr := range wres {
+		if wr.err != nil {
+			return wr.err
+		}
+		in := fmt.Sprintf("wire seed=%d invoke-workers=%d invokes-each=%d compress-threshold=%d", wseed[i], wcfg[i][0], wcfg[i][1], wcfg[i][2])
+		var os []obs
+		var fl, sq []string
+		for _, w := range wr.frames {
+			content := w.typeID == mt.RPCDropAnswerRequestTypeID
+			os = append(os, obs{w.msgID, w.seqNo, content})
+			fl = append(fl, b01(content))
+			sq = append(sq, strconv.Itoa(int(w.seqNo)))
+		}
+		for k, v := range wr.kinds {
+			for j := 0; j < v; j++ {
+				c.Count("wire." + k)
+			}
+		}
+		if wr.kinds["DIFFERENT-MESSAGES-SAME-ID"] > 0 {
+			c.Fail("wire-id-reused", in, "two different messages were written with the same msg_id")
+		}
+		if got, want := wr.kinds["content(rpc)"], wcfg[i][0]*wcfg[i][1]; got != want {
+			c.Fail("wire-content-count", in, fmt.Sprintf("%d content messages written, %d Invoke calls", got, want))
+		}
+		detail := in + " :: " + holdsLine(os)
+		checkSeqRule(c, detail, os)
+		c.Eval(in, len(os) >= 4)
+		holdsLines = append(holdsLines, holdsLine(os))
+		if len(fl) > 0 {
+			add("seq "+strings.Join(fl, " "), strings.Join(sq, " "))
+		}
+	}
+
 	outs, err := c.Drv.Batch(lines)
 	if err != nil {
 		return err
@@ -610,8 +1046,9 @@ func run(c *hc.Ctx) error {
 			c.Fail("holds-false", holdsLines[i], "TdModel.C08.holds is "+o+" on the (id, seq_no, content) triples returned by nextMsgSeq")
 		}
 	}
-	c.Res.Rule = "clock scripts (frozen, +1..4 ns, +0..13 ns, backward jumps, coarse ticks, second roll-over, pre-1970, mixed; 1..1000 calls; 25% with mixed message types) through MessageIDGen.New, ids compared one by one; non-trivial = some consecutive readings less than 4 ns apart or going backwards. Single NewMessageIDNano / MessageID.Time / Type values; nextMsgSeq sequences (non-trivial = at least 2 calls) and 1..8 concurrent callers (non-trivial = at least 2 workers) replayed in id order; distinct = distinct input line"
+	c.Res.Rule = "clock scripts (frozen, +1..4 ns, +0..13 ns, backward jumps, coarse ticks, second roll-over, pre-1970, mixed; 1..1000 calls; 25% with mixed message types) through MessageIDGen.New, ids compared one by one; non-trivial = some consecutive readings less than 4 ns apart or going backwards. Single NewMessageIDNano / MessageID.Time / Type values; nextMsgSeq sequences (non-trivial = at least 2 calls) and 1..8 concurrent callers (non-trivial = at least 2 workers) replayed in id order; hammer runs (8 callers × 1500..3000 calls, half service-only); whole connections through the public New/Run over an in-memory transport with pings, acks, get_future_salts, http_wait and concurrent Invoke calls, every written frame decrypted and the messages checked in msg_id order; distinct = distinct input line"
 	c.PartialNote("interleavings of concurrent nextMsgSeq callers are those the Go scheduler produced (not enumerated); the model treats nextMsgSeq as one atomic step, justified by the regenerated lock-scope facts")
+	c.PartialNote("the wire part observes written frames: a service message whose id was generated but which was never written (write cancelled at shutdown) is invisible and does not affect the rule; content messages are always written because Invoke waits for its result")
 	c.PartialNote("ids are compared while the generator's time is before 2038-01-19 (int64 ids non-negative); later times are outside the model's range hypothesis")
 	return nil
 }
